@@ -378,6 +378,11 @@ def compile_level(T, mod, r, col, stats, qualifiers, do_ct):
     if hasattr(mod, "CB"):
         full = (1 << w) - 1
         res = compile_entity(mod.CB)
+        has_nf = res.ok
+        if not res.ok:
+            stats["cb_nullfull_rejected"] += 1
+            stats.setdefault("reject_msgs", {}).setdefault(f"cb(Null/Full): {res.error[:160]}", col.canon)
+            res = compile_entity(mod.CBX)
         if not res.ok:
             stats["cb_rejected"] += 1
             stats.setdefault("reject_msgs", {}).setdefault(f"cb: {res.error[:160]}", col.canon)
@@ -398,6 +403,9 @@ def compile_level(T, mod, r, col, stats, qualifiers, do_ct):
                             col.add("cb.ctor", f"emitted logic: record built in form {name} from the documented slices "
                                     f"of {b:0{w}b}: to_bits = {outs.get(f'cb{j}')}", pattern=b, form=j, expected=b,
                                     observed=outs.get(f"cb{j}"))
+                    if not has_nf:
+                        continue
+                    stats["cb_nullfull_evals"] += 1
                     if outs.get("cbnull") != 0:
                         col.add("cb.null", f"emitted logic: to_bits(T(Null)) = {outs.get('cbnull')}", expected=0,
                                 observed=outs.get("cbnull"))
@@ -644,6 +652,11 @@ def main(run: Run):
     n_ct = sum(1 for s, t in fam if ct_for(s, t, run.thorough))
     if (c.get("ct_compiled", 0) + len(run.violations)) * 10 < n_ct * 8:
         run.tool_error(f"vacuous: constants-in-context wrapper compiled for {c.get('ct_compiled', 0)} of {n_ct}")
+    n_rec = sum(1 for _, t in fam if t[0] in ("rec", "trec", "ttrec"))
+    if n_rec and (c.get("cb_compiled", 0) + len(run.violations)) * 10 < n_rec * 8:
+        run.tool_error(f"vacuous: run-time constructor wrapper compiled for {c.get('cb_compiled', 0)} of {n_rec} records")
+    if n_rec and c.get("py_forms_done", 0) < n_rec:
+        run.tool_error(f"vacuous: constructor forms exercised {c.get('py_forms_done', 0)} times for {n_rec} records")
     if c.get("py_ctor_mismatch", 0):
         run.note(f"constructors that did not store the given value (outside C17): {c['py_ctor_mismatch']}")
     run.assume("vsim (own VHDL-2008 subset simulator) implements IEEE 1076/numeric_std semantics")
@@ -663,7 +676,13 @@ def main(run: Run):
              f"input pattern of the compiled round-trip wrapper for qualifiers {list(qualifiers)}"
              + (" (temporary/ref/variable for width <= 7)" if run.thorough else "") +
              ", constants folded in context (all patterns for width<=3, else the position-code patterns), bit field "
-             "member writes for every (vector, member value)",
+             "member writes for every (vector, member value); every record node constructed in every form (k positional "
+             "+ every keyword permutation of the rest, copy constructor, Null/Full) x every value, at Python level and in a "
+             "compiled wrapper fed from the documented slices"
+             + ("" if run.thorough else " (nesting-2 record strata: the 4 most different forms, value qualifier, no "
+                                        "constants wrapper)") +
+             "; inherited records: low bits == serialised base class; templated records (incl. inheritance between "
+             "template declarations, int and type template arguments) == the identical non-templated record",
         evaluations=evals,
         distinct_nontrivial=c.get("types_with_distinct_outcomes_rt", 0),
         qualifiers=list(qualifiers),
